@@ -6,8 +6,10 @@ Driver for C02 (lock-step).  Lines:
   `begin`
   `w <label-reached> [<v bits>]` — the writer was resumed and reached `gauge.update:0 <v>` (about to store
       `v`), `gauge.update:1` (value stored, about to set the flag) or `done`
-  `r <thread> <label-reached> [<delivered bits>]` — reporter `t` reached `gauge.report:0` (about to swap),
-      `gauge.report:1` (swap returned 1) or `visit-end [bits]`
+  `r <thread> <label-reached> [<bits>]` — reporter `t` reached `gauge.report:0` (about to lock and swap),
+      `gauge.report:1` (swap returned 1), `rep.gauge <bits>` (inside the reporter call: the value read) or
+      `visit-end [bits delivered]`
+  `canswap` → `ok yes|no` — is the gauge's report mutex free (may a reporter parked at gauge.report:0 be resumed)
   `holds? <updates> <delivered> <idle>`
 -/
 namespace Tally.Drv.C02
@@ -15,7 +17,7 @@ open Tally Tally.Gauge
 
 inductive WPc | idle | atValue (v : UInt64) | atFlag
 deriving DecidableEq
-inductive RPc | idle | atSwap | atLoad
+inductive RPc | idle | atSwap | atLoad | atDeliver
 deriving DecidableEq
 
 structure DState where
@@ -34,6 +36,7 @@ def apply (d : DState) (e : Ev) : Option DState :=
 def handle (d : DState) (toks : List String) : DState × String :=
   match toks with
   | ["begin"] => (init, "ok")
+  | ["canswap"] => (d, if d.st.holder.isNone then "ok yes" else "ok no")
   | "w" :: label :: rest =>
     -- first execute the action the writer was parked before
     let d1? : Option DState := match d.w with
@@ -64,20 +67,30 @@ def handle (d : DState) (toks : List String) : DState × String :=
       | .atSwap =>
         let was := d.st.updated
         match apply d (.swap t) with
-        | none => (d, "reject swap-not-enabled")
+        | none => (d, "reject swap-not-enabled (another report of this gauge is in progress: the report mutex is held)")
         | some d1 =>
           let expect := if was then "gauge.report:1" else "visit-end"
           if label == expect then (setR d1 t (if was then .atLoad else .idle), "ok")
           else (d1, s!"reject expected={expect} got={label}")
       | .atLoad =>
-        let v := d.st.curr
+        -- the reporter call was entered: its argument (the value read) is observed
         match apply d (.load t) with
         | none => (d, "reject load-not-enabled")
+        | some d1 =>
+          let d2 := setR d1 t .atDeliver
+          if label != "rep.gauge" then (d2, s!"reject expected=rep.gauge got={label}") else
+          match rest with
+          | [obs] => if (u64OfHex obs) == d1.st.loaded then (d2, "ok") else (d2, s!"differ loaded={(d1.st.loaded.map u64ToHex).getD "none"}")
+          | _ => (d2, "bad-op missing-loaded")
+      | .atDeliver =>
+        let v := d.st.loaded
+        match apply d (.deliver t) with
+        | none => (d, "reject deliver-not-enabled")
         | some d1 =>
           let d2 := setR d1 t .idle
           if label != "visit-end" then (d2, s!"reject expected=visit-end got={label}") else
           match rest with
-          | [obs] => if u64OfHex obs == some v then (d2, "ok") else (d2, s!"differ delivered={u64ToHex v}")
+          | [obs] => if u64OfHex obs == v then (d2, "ok") else (d2, s!"differ delivered={(v.map u64ToHex).getD "none"}")
           | _ => (d2, "bad-op missing-delivered")
   | ["holds?", ups, dels, idle] =>
     match f64List ups, f64List dels, f64List idle with
